@@ -103,6 +103,7 @@ def check(case, ctx):
     exact = run_one(ctx, g, pos, case["shift"], case["byname"], name, case.get("pos_as", "list"))
     if exact is None:
         return
+    ctx._sample_view = {"group": "%s (Sg%d, %s)" % (g.name, g.no, g.choice), "position": [str(p) for p in pos], "shift": case["shift"], "orbit_size": exact}
     special = exact < g.nsymop
     nonsym = any(not np.array_equal(R, R.T) for R in g.R)
     nonbin = any(p.denominator % 3 == 0 for p in pos)
